@@ -34,3 +34,11 @@ A(M("r7-gen-labels-swapped", "C04", AN, '    (True, False): "inward",\n    (Fals
 A(M("r7-gen-normal-angle-unit", "C04", AN, "    if math.degrees(angle) > STACKING_MAX_ANGLE_BETWEEN_NORMALS:\n        return False\n", "    if angle > STACKING_MAX_ANGLE_BETWEEN_NORMALS:\n        return False\n", None, **B410))
 A(M("r7-gen-unsorted", ["C04", "C11"], AN, "    pairs = sorted(generate_stacked_pairs(coordinates, coordinates_residue_map))\n", "    pairs = list(generate_stacked_pairs(coordinates, coordinates_residue_map))\n", None, **B410))
 A(M("r7-gen-order-test-silent", ["C04", "C11"], AN, "        in_order = bool(residue_i < residue_j)\n", "        in_order = residue_i < residue_j\n", kind="silent", **B410))
+
+# ---- C03-r10: the label loop lives in a generator helper whose sequence a second (inlined) helper counts
+B310 = dict(base="C03-r10")
+A(M("r7-gen-edges-not-swapped", "C03", AN, "                yield residue_j, residue_i, cis_trans, edge_j, edge_i\n", "                yield residue_j, residue_i, cis_trans, edge_i, edge_j\n", None, **B310))
+A(M("r7-gen-residues-not-swapped", ["C03", "C11"], AN, "                yield residue_j, residue_i, cis_trans, edge_j, edge_i\n", "                yield residue_i, residue_j, cis_trans, edge_j, edge_i\n", None, **B310))
+A(M("r7-gen-single-bond-pair", "C03", AN, "        if hydrogen_bond_count < 2:\n", "        if hydrogen_bond_count < 1:\n", None, **B310))
+A(M("r7-gen-occupied-one-side", "C03", AN, "        occupied.update(sides)\n", "        occupied.update(sides[:1])\n", None, **B310))
+A(M("r7-gen-none-test-order-silent", ["C03", "C11"], AN, "        if edges_i is None or edges_j is None:\n", "        if edges_j is None or edges_i is None:\n", kind="silent", **B310))
